@@ -132,7 +132,10 @@ def mk_V(vals, kind):
         return dict.fromkeys(vals).keys()
     if kind == 4:
         from pyModelChecking.kripke import Kripke
-        return Kripke(R=[(v, v) for v in vals]).states()
+        try:
+            return Kripke(R=[(v, v) for v in vals]).states()
+        except Exception:       # the helper structure cannot be built (the constructor cases report that): another view type
+            return dict.fromkeys(vals).keys()
     if kind == 5:
         return VSet(vals)
     if kind == 6:
